@@ -240,8 +240,8 @@ def _converted_ranges_hold_their_own_class(ctx):
             continue
         ctx.count(stream, key=(scheme, label), nontrivial=True, branch=label.split("(")[0].split(" ")[0])
         vc = type(r).version_class
-        bad = [c for c in r.constraints if c.version is not None and vc is not None and type(c.version) is not vc]
-        if bad or (rc is not None and type(r) is not rc and not label.startswith("gitlab")):
+        bad = [c for c in r.constraints if c.version is not None and vc is not None and not isinstance(c.version, vc)]
+        if bad or (rc is not None and not isinstance(r, rc) and not label.startswith("gitlab")):
             ctx.disagree(stream, "%s %s" % (scheme, label),
                          "a %s holding %s" % (type(r).__name__, sorted({type(c.version).__name__ for c in bad}) or type(r).__name__),
                          "versions of %s in a %s" % (getattr(vc, "__name__", vc), getattr(rc, "__name__", rc)), True,
